@@ -1,1 +1,160 @@
-From QV Require Import Model.Concat.
+(* C12 -- compiled control pulses are exactly the scheduled instruction waveforms.
+
+   Model: QV.Model.Concat (GateCompiler.compile / _schedule / _process_gate_pulse /
+   _process_idling_tlist / _concatenate_pulses in exact rationals).  `fx = true` is the code with
+   fixes/C12-first-pulse-flag.diff applied, `fx = false` the unchanged code.
+
+   Full statement aimed at (property text): for every compiler, gate list and scheduling mode every
+   returned channel has a grid starting at 0 and strictly increasing, a coefficient array that fits
+   the grid for its pulse kind, takes inside each instruction window that instruction's waveform
+   and is zero elsewhere, whatever the ratios of the durations.
+
+   What is proved, for ALL instruction lists / channels / durations (no size bound):
+     grid_starts_zero, coeff_length_fits      unconditionally for the repaired code;
+     grid_strictly_increasing                 for well-formed, time-ordered, non-overlapping channels
+                                              (chain_ord), any duration ratios;
+     compiled_is_waveform, window_waveform,
+     zero_elsewhere                           for discrete channels, additionally under the guard gaps_ok
+                                              (an idle gap is 0 or > 1e-6 * step of the next instruction);
+                                              gap_guard_needed_refuted shows the guard is necessary
+                                              (known finding idle-gap-below-tolerance);
+     continuous_samples_partial               continuous channels: PARTIAL -- lengths, every sample k >= 1
+                                              of every instruction is present, every other grid point
+                                              carries 0; nothing about the spline between samples;
+     unfixed_*_refuted                        the unchanged code violates grid / length clauses
+                                              (durations 1e-9 then 1e4);
+     fix_is_conservative                      unchanged = repaired code on inputs with moderate ratios. *)
+From Coq Require Import List QArith.
+From QV Require Import Model.Concat Proofs.ConcatGrid Proofs.ConcatWave Proofs.ConcatAll
+     Proofs.ConcatChannels Proofs.ConcatRefute Proofs.ConcatTop.
+Import ListNotations.
+Open Scope Q_scope.
+
+(* compile = time ordering + per-name channel lists + _concatenate_pulses; the list of a pulse name
+   is exactly the instructions that use the name, in time order *)
+Theorem compile_structure : forall fx sched il out,
+  il <> [] -> compile fx sched il = Some out ->
+  exists sil chs outs,
+    scheduled sched il = Some sil /\ build_channels sil = Some chs /\
+    NoDup (map fst chs) /\ (forall n l, In (n, l) chs -> l = pulses_of n sil) /\
+    concatenate_pulses fx (map snd chs) = Some outs /\ out = combine (map fst chs) outs.
+Proof. exact ConcatTop.compile_structure. Qed.
+Print Assumptions compile_structure.
+
+(* scheduled modes: the instructions are handed on ordered by start time, none lost or invented *)
+Theorem time_order_sorted : forall st il sil,
+  scheduled (Some st) il = Some sil ->
+  sorted_starts sil /\ forall y, In y sil <-> In y (combine st il).
+Proof. exact ConcatTop.scheduled_sorted. Qed.
+Print Assumptions time_order_sorted.
+
+(* clause: the time grid of every returned channel starts at zero (any durations) *)
+Theorem grid_starts_zero : forall sched il out n ts cs,
+  compile true sched il = Some out -> In (n, (ts, cs)) out -> exists r, ts = 0 :: r.
+Proof. exact ConcatTop.compile_grid_starts_zero. Qed.
+Print Assumptions grid_starts_zero.
+
+(* clause: the coefficient array fits the grid for the pulse kind (any durations) *)
+Theorem coeff_length_fits : forall chs outs k i rest ts cs,
+  concatenate_pulses true chs = Some outs ->
+  nth_error chs k = Some (i :: rest) -> nth_error outs k = Some (ts, cs) ->
+  (is_discrete (p_wave i) /\ length ts = S (length cs)) \/
+  (is_continuous (p_wave i) /\ ~ is_discrete (p_wave i) /\ length ts = length cs).
+Proof. exact ConcatAll.all_lengths. Qed.
+Print Assumptions coeff_length_fits.
+
+(* clause: every grid increases strictly -- whatever the relative magnitudes of the durations *)
+Theorem grid_strictly_increasing : forall chs outs,
+  Forall (chain_ord 0) chs ->
+  concatenate_pulses true chs = Some outs ->
+  Forall (fun o => strictly_increasing (fst o)) outs.
+Proof. exact ConcatAll.all_increasing. Qed.
+Print Assumptions grid_strictly_increasing.
+
+(* clauses window + zero in one: as a function of time the compiled discrete channel IS the
+   scheduled waveform *)
+Theorem compiled_is_waveform : forall chs outs k l ts cs,
+  concatenate_pulses true chs = Some outs ->
+  nth_error chs k = Some l -> nth_error outs k = Some (ts, cs) ->
+  chain_ord 0 l -> gaps_ok 0 l -> Forall (fun i => is_discrete (p_wave i)) l ->
+  forall t, eval_step ts cs t = spec_eval l t.
+Proof. exact ConcatAll.all_waveform. Qed.
+Print Assumptions compiled_is_waveform.
+
+Theorem window_waveform : forall chs outs k l ts cs,
+  concatenate_pulses true chs = Some outs ->
+  nth_error chs k = Some l -> nth_error outs k = Some (ts, cs) ->
+  chain_ord 0 l -> gaps_ok 0 l -> Forall (fun i => is_discrete (p_wave i)) l ->
+  forall i t, In i l -> p_start i <= t -> t < p_end i ->
+  eval_step ts cs t = eval_step (w_ts (p_wave i)) (w_cs (p_wave i)) (t - p_start i).
+Proof. exact ConcatTop.window_waveform. Qed.
+Print Assumptions window_waveform.
+
+Theorem zero_elsewhere : forall chs outs k l ts cs,
+  concatenate_pulses true chs = Some outs ->
+  nth_error chs k = Some l -> nth_error outs k = Some (ts, cs) ->
+  chain_ord 0 l -> gaps_ok 0 l -> Forall (fun i => is_discrete (p_wave i)) l ->
+  forall t, (forall i, In i l -> ~ (p_start i <= t /\ t < p_end i)) -> eval_step ts cs t = 0.
+Proof. exact ConcatTop.zero_elsewhere. Qed.
+Print Assumptions zero_elsewhere.
+
+(* continuous channels -- PARTIAL (missing: behaviour of the interpolating spline between grid points,
+   and that zero samples lie outside the windows beyond what grid monotonicity gives) *)
+Theorem continuous_samples_partial : forall chs outs k l ts cs,
+  concatenate_pulses true chs = Some outs ->
+  nth_error chs k = Some l -> nth_error outs k = Some (ts, cs) ->
+  Forall wf_cont l ->
+  length ts = length cs /\
+  (forall i, In i l -> incl (samples i) (combine ts cs)) /\
+  (forall t c, In (t, c) (combine ts cs) -> c = 0 \/ exists i, In i l /\ In (t, c) (samples i)).
+Proof. exact ConcatAll.all_samples. Qed.
+Print Assumptions continuous_samples_partial.
+
+(* the unchanged code: refuted *)
+Theorem unfixed_grid_refuted :
+  exists chs outs, Forall (chain_ord 0) chs /\ Forall (gaps_ok 0) chs /\
+                   concatenate_pulses false chs = Some outs /\
+                   ~ Forall (fun o => strictly_increasing (fst o)) outs.
+Proof. exact ConcatRefute.unfixed_grid_refuted. Qed.
+Print Assumptions unfixed_grid_refuted.
+
+Theorem unfixed_length_refuted :
+  exists chs outs i rest ts cs,
+    Forall (chain_ord 0) chs /\ Forall (gaps_ok 0) chs /\
+    concatenate_pulses false chs = Some outs /\
+    nth_error chs 0 = Some (i :: rest) /\ nth_error outs 0 = Some (ts, cs) /\
+    is_discrete (p_wave i) /\ length ts <> S (length cs).
+Proof. exact ConcatRefute.unfixed_length_refuted. Qed.
+Print Assumptions unfixed_length_refuted.
+
+(* the guard gaps_ok cannot be dropped (repaired code): known finding idle-gap-below-tolerance *)
+Theorem gap_guard_needed_refuted :
+  exists chs outs l ts cs t,
+    concatenate_pulses true chs = Some outs /\
+    nth_error chs 0 = Some l /\ nth_error outs 0 = Some (ts, cs) /\
+    chain_ord 0 l /\ Forall (fun i => is_discrete (p_wave i)) l /\
+    (forall i, In i l -> ~ (p_start i <= t /\ t < p_end i)) /\
+    ~ eval_step ts cs t == 0.
+Proof. exact ConcatRefute.gap_guard_needed_refuted. Qed.
+Print Assumptions gap_guard_needed_refuted.
+
+(* the repair changes nothing when no instruction is > 1e6 times longer than the time elapsed before it *)
+Theorem fix_is_conservative : forall chs,
+  Forall moderate chs -> concatenate_pulses false chs = concatenate_pulses true chs.
+Proof. exact ConcatRefute.fix_is_conservative. Qed.
+Print Assumptions fix_is_conservative.
+
+(* non-vacuity: a two-channel input (rectangular + sampled discrete with an idle gap; two adjoining
+   continuous pulses, padded with the leaked continuous mode) satisfies all hypotheses above *)
+Example hypotheses_inhabited :
+  Forall (chain_ord 0) ex_chs /\ Forall (gaps_ok 0) ex_chs /\
+  Forall (fun i => is_discrete (p_wave i)) ex_chA /\ Forall wf_cont ex_chB /\
+  exists oA oB, concatenate_pulses true ex_chs = Some [oA; oB] /\
+                eval_step (fst oA) (snd oA) (7 # 2) = 5 /\ eval_step (fst oA) (snd oA) 2 = 0 /\
+                length (fst oA) = 5%nat /\ length (fst oB) = 25%nat.
+Proof. exact (conj ex_chain (conj ex_gaps (conj ex_discrete (conj ex_continuous ex_compiles)))). Qed.
+Print Assumptions hypotheses_inhabited.
+
+Example moderate_inhabited : Forall moderate ConcatRefute.wit_mod.
+Proof. exact ConcatRefute.wit_mod_ok. Qed.
+Print Assumptions moderate_inhabited.
